@@ -71,6 +71,7 @@ func scalar(t types.Type, s string) Val { return Val{T: t, K: kScalar, S: s} }
 type Comp struct {
 	Suffix string
 	Sort   string
+	Ref    bool // holds a heap reference (pointer, map, interface, slice backing array)
 }
 
 func sortOfBasic(b *types.Basic) string {
@@ -88,14 +89,14 @@ func sortOfBasic(b *types.Basic) string {
 func flatten(t types.Type) []Comp {
 	switch u := t.Underlying().(type) {
 	case *types.Basic:
-		return []Comp{{"", sortOfBasic(u)}}
+		return []Comp{{"", sortOfBasic(u), false}}
 	case *types.Slice:
-		return []Comp{{"#arr", "Int"}, {"#len", "Int"}}
+		return []Comp{{"#arr", "Int", true}, {"#len", "Int", false}}
 	case *types.Struct:
 		var out []Comp
 		for i := 0; i < u.NumFields(); i++ {
 			for _, c := range flatten(u.Field(i).Type()) {
-				out = append(out, Comp{"." + u.Field(i).Name() + c.Suffix, c.Sort})
+				out = append(out, Comp{"." + u.Field(i).Name() + c.Suffix, c.Sort, c.Ref})
 			}
 		}
 		return out
@@ -103,13 +104,19 @@ func flatten(t types.Type) []Comp {
 		var out []Comp
 		for i := 0; i < u.Len(); i++ {
 			for _, c := range flatten(u.At(i).Type()) {
-				out = append(out, Comp{fmt.Sprintf("$%d%s", i, c.Suffix), c.Sort})
+				out = append(out, Comp{fmt.Sprintf("$%d%s", i, c.Suffix), c.Sort, c.Ref})
 			}
 		}
 		return out
 	default:
 		// pointer, map, chan, func, interface, unsafe pointer
-		return []Comp{{"", "Int"}}
+		if types.TypeString(t, nil) == "error" {
+			return []Comp{{"", "Int", false}}
+		}
+		if _, isSig := t.Underlying().(*types.Signature); isSig {
+			return []Comp{{"", "Int", false}}
+		}
+		return []Comp{{"", "Int", true}}
 	}
 }
 
